@@ -48,6 +48,18 @@ def gen_names(rng, n):
         if s[0].isdigit():
             s = "_" + s
         names.add(s)
+    # directed: names whose two bloom-filter bit positions coincide, and pairs colliding in (hash >> 1)
+    if n >= 3:
+        k = 0
+        while True:
+            cand = f"bl_{rng.randrange(10**6)}"
+            h = elfread.gnu_hash(cand)
+            if (h & 63) == ((h >> 6) & 63):
+                names.discard(next(iter(names)))
+                names.add(cand)
+                k += 1
+                if k == 2:
+                    break
     return sorted(names, key=lambda x: rng.random())
 
 
